@@ -613,7 +613,13 @@ impl Mon {
                     self.r.violate(prop, &format!("{}/{}/health-worse-than-at-start", prop, info.kind.name()), format!("account {}: {} -> {}", ak, show(&h0.v), show(&h1.v)));
                 }
                 if !delev {
+                    // three-valued: certainly under five dollars / certainly not / inside the rounding band
                     let small = he0.assets.v.clone() + &he0.assets.e < ri(5);
+                    let at_boundary = !small && &he0.assets.v - &he0.assets.e * ri(4) - ulp() * ri(64) < ri(5);
+                    if at_boundary {
+                        self.r.count("C10.ended_account_at_the_five_dollar_boundary_not_judged");
+                        return;
+                    }
                     let seized = he0.assets.sub(&he1.assets);
                     let repaid = he0.liabs.sub(&he1.liabs);
                     let max_fee = w.shadow.get(&crate::ix::fee_state_key()).and_then(|a| fee_state_of(&a.data)).map(|f| w_(&f.liquidation_max_fee)).unwrap_or_else(zero);
@@ -627,7 +633,12 @@ impl Mon {
                         let over = seized.sub(&lim);
                         self.r.max("C10.max_seized_over_limit_usd", to_f64(&over.v));
                         if over.certainly_pos() {
-                            self.r.violate("C10", "C10/EndLiquidation/seized-more-than-repaid-plus-premium", format!("account {}: seized {} repaid {} premium {}", ak, show(&seized.v), show(&repaid.v), show(&prem)));
+                            let rec = v.pre(&crate::ix::liq_record_key(ak)).and_then(liq_record_of).map(|r| (show(&w_(&r.cache.asset_value_equity)), show(&w_(&r.cache.liability_value_equity)))).unwrap_or_default();
+                            let mut parts = vec![];
+                            for p in positions(v, ap, false) {
+                                parts.push(format!("[tag {} tier {:?} setup {:?} a={} l={}]", p.bank.config.asset_tag, p.bank.config.risk_tier, p.bank.config.oracle_setup, show(&(w_(&p.balance.asset_shares) * w_(&p.bank.asset_share_value))), show(&(w_(&p.balance.liability_shares) * w_(&p.bank.liability_share_value)))));
+                            }
+                            self.r.violate("C10", "C10/EndLiquidation/seized-more-than-repaid-plus-premium", format!("account {}: seized {} repaid {} premium {}; assets at start by the reference {} (+-{}), as recorded by the program (assets, liabilities) {:?}; positions at end-time pre-state {}", ak, show(&seized.v), show(&repaid.v), show(&prem), show(&he0.assets.v), show(&he0.assets.e), rec, parts.join(" ")));
                         }
                     }
                     self.r.distinct(&("rcv", small, he0.n_assets.min(5), he0.n_liabs.min(5), (to_f64(&seized.v) > 0.0), (to_f64(&repaid.v) > 0.0)));
